@@ -623,6 +623,9 @@ def wrapper_sizes(repo, rep, kernels_lead):
 
 
 def run(repo, rep, tier):
+    rep.rule("R-C03-v1", "no partition list is rebuilt through a dict keyed by a computed statistic (equal keys collide: a basin found by the watershed would be dropped)")
+    from .round7b import float_keyed_collections
+    float_keyed_collections(repo, rep, "R-C03-v1", ("wavespectra.partition.",))
     from .round7b import hygiene
     hygiene(repo, rep, "C03", ('wavespectra.partition.',), falsy=True)
     rep.rule("R-C03-10", "(shared with C16) the smoothed spectrum handed to the watershed has no NaN rows: smooth_spec fills the window's edge NaN from the input "
